@@ -6,7 +6,7 @@ objects (`W.phiCpp`, WP phicache) — with the three sub-results of WP close2 co
   * no "PhiCache contents" hypothesis (`PhiRunOK2` = literature bound + "every loop index handed out once"; PcProps/C01Closed2.lean),
   * `phi_vector`'s `PhiCache::phi<-1>`: `W.phiNeg = phiNegIdeal` is what the bit-level `phi_vector` computes (`C07Closed2.world_phi_vector_is_cpp`),
     so `World.OK.phiVec` is gone: `World2.OKmin` (configuration range, ONE float assumption — a theorem for `bnd ≤ 2^50` —, hints, size),
-  * Gourdon's domain restriction `x < 2 ∨ x ≥ 2401` reduced to `x < 2 ∨ x ≥ 16` (PcProps/C02ClosedSmall.lean),
+  * Gourdon's domain restriction `x < 2 ∨ x ≥ 2401` reduced to `x < 8 ∨ x ≥ 16` (PcProps/C02ClosedSmall.lean, C02ClosedTiny.lean),
   * `pi_deleglise_rivat_128` as a stand-alone entry point (PcProofs/Close2Dr.lean).
 
 REMAINING HYPOTHESES of every theorem below (complete list; diagram in notes/wp-close2.md):
@@ -20,6 +20,7 @@ Only property theorems, non-vacuity examples and the axiom audit live here.
 import PcProofs.Close2Final
 import PcProofs.Close2PhiEx
 import PcProofs.Close2SmallEx
+import PcProofs.Close2TinyEx
 
 namespace Pc.C01Closed3
 open Pc.Top Pc.Close Nat PcGen.ApiConst
@@ -46,10 +47,10 @@ theorem pi_api_eq_pi3 (W : World2) {B : ℕ} (h : W.OKmin B) (hB : B < 2 ^ 32) (
         .error (.hard .badRun) :=
   W.pi_api_s2 (W.ok_of_min h) hB c f pi x hx threads isPrint r hphi hrec hex
 
-/-- **`pi_gourdon_eq_pi3`** — `pi_gourdon_64(x)` (`wide = false`) / `pi_gourdon_128(x)` (`wide = true`) for `x < 2` or `x ≥ 16`
-    (WP close: `x ≥ 2401`); `2 ≤ x ≤ 15` (degenerate clamps `y = z ∈ {1, 2} ≤ x^(1/3)`) is the part not covered -/
+/-- **`pi_gourdon_eq_pi3`** — `pi_gourdon_64(x)` (`wide = false`) / `pi_gourdon_128(x)` (`wide = true`) for EVERY `x` of the type except
+    `8 ≤ x ≤ 15` (WP close: `x < 2 ∨ x ≥ 2401`); the eight excluded arguments have degenerate clamps (`y = z ∈ {1, 2} ≤ x^(1/3)`) and are not covered -/
 theorem pi_gourdon_eq_pi3 (W : World2) {B : ℕ} (h : W.OKmin B) (hB : B < 2 ^ 32) (c : Sieve.Cfg) (f : Sieve.StopFn) (pi : ℕ → ℕ)
-    (wide : Bool) (x : ℤ) (hx : InType wide x) (hsmall : x < 2 ∨ 16 ≤ x) (threads : ℤ) (isPrint : Bool) (r : GRun)
+    (wide : Bool) (x : ℤ) (hx : InType wide x) (hsmall : x < 8 ∨ 16 ≤ x) (threads : ℤ) (isPrint : Bool) (r : GRun)
     (hphi : ∀ n : ℕ, (n : ℤ) < x → maxCached < n → n ≤ meisselMax → W.PhiRunOK2 n)
     (hrec : W.NestedS2 c f B pi x)
     (hex : 2 ≤ x → GExecC (W.toWorld.tablesS c f wide) B wide x.toNat r) :
@@ -57,9 +58,9 @@ theorem pi_gourdon_eq_pi3 (W : World2) {B : ℕ} (h : W.OKmin B) (hB : B < 2 ^ 3
       piGourdon (W.toWorld.tablesS c f wide) pi wide x threads isPrint r = .error (.hard .badRun) :=
   W.pi_gourdon_s3 (W.ok_of_min h) hB c f pi wide x hx hsmall threads isPrint r hphi hrec hex
 
-/-- **`pi_gourdon_64_eq_pi3`** — `pi_gourdon_64(x)` for every int64 `x` with `x < 2` or `x ≥ 16` -/
+/-- **`pi_gourdon_64_eq_pi3`** — `pi_gourdon_64(x)` for every int64 `x` except `8 ≤ x ≤ 15` -/
 theorem pi_gourdon_64_eq_pi3 (W : World2) {B : ℕ} (h : W.OKmin B) (hB : B < 2 ^ 32) (c : Sieve.Cfg) (f : Sieve.StopFn) (pi : ℕ → ℕ)
-    (x : ℤ) (hx : x < 2 ^ 63) (hsmall : x < 2 ∨ 16 ≤ x) (threads : ℤ) (isPrint : Bool) (r : GRun)
+    (x : ℤ) (hx : x < 2 ^ 63) (hsmall : x < 8 ∨ 16 ≤ x) (threads : ℤ) (isPrint : Bool) (r : GRun)
     (hphi : ∀ n : ℕ, (n : ℤ) < x → maxCached < n → n ≤ meisselMax → W.PhiRunOK2 n)
     (hrec : W.NestedS2 c f B pi x)
     (hex : 2 ≤ x → GExecC (W.toWorld.tablesS c f false) B false x.toNat r) :
@@ -119,6 +120,13 @@ example (c : Sieve.Cfg) (f : Sieve.StopFn) :=
     (exsGRun (exWorld3.toWorld.tablesS c f false).t) (fun n _ _ _ => exWorld3_phiRunOK2 n)
     (fun n hn h63 => exWorld3_nestedS2 c f n (lt_trans hn (by norm_num)) h63)
     (fun _ => exsGExecC_of _ rfl (by show 171 ≤ 3000; norm_num) (by show 3000 ≤ _; decide))
+
+/-- Gourdon at `x = 5` (degenerate parameters `y = z = 1`, `k = 0`): complete execution over the world, every hypothesis instantiated -/
+example (c : Sieve.Cfg) (f : Sieve.StopFn) :=
+  pi_gourdon_64_eq_pi3 exWorld3 exWorld3_okmin (by norm_num) c f Nat.primeCounting 5 (by norm_num) (Or.inl (by norm_num)) 1 false
+    (extGRun (exWorld3.toWorld.tablesS c f false).t) (fun n _ _ _ => exWorld3_phiRunOK2 n)
+    (fun n hn h63 => exWorld3_nestedS2 c f n (lt_trans hn (by norm_num)) h63)
+    (fun _ => extGExecC_of _ rfl (by show 5 ≤ 3000; norm_num) (by show 3000 ≤ _; decide))
 
 /-- Gourdon and Deleglise-Rivat at `x = 10^5` -/
 example (c : Sieve.Cfg) (f : Sieve.StopFn) :=
